@@ -80,6 +80,29 @@ package parsers
 //@ spec lastCount(c *ExpressionParser) int = cntAt(seq(c.resultTokens), heapof(ExpressionToken, typ), heapof(ExpressionToken, value),
 //@     heapof(variants.Variant, typ), heapof(variants.Variant, value), len(c.resultTokens) - 1)
 //
+// every compiled token carries a value; constants, variables and calls a valid one; names are strings
+//@ spec rtokF(ty fmap[int], va fmap[*variants.Variant], vt fmap[variants.VariantType], vv fmap[any], t *ExpressionToken) bool =
+//@     t != nil && va[t] != nil &&
+//@     ((ty[t] == Constant || ty[t] == Variable || ty[t] == Function) ==> vinvF(vt, vv, va[t])) &&
+//@     ((ty[t] == Variable || ty[t] == Function) ==> vt[va[t]] == variants.String)
+//@ rec resOKn(s seq[*ExpressionToken], ty fmap[int], va fmap[*variants.Variant], vt fmap[variants.VariantType], vv fmap[any], n int) bool
+//@     decreases n =
+//@     n <= 0 ? true : (resOKn(s, ty, va, vt, vv, n - 1) && rtokF(ty, va, vt, vv, s[n-1]))
+//@ lemma okPrefix(s seq[*ExpressionToken], t seq[*ExpressionToken], ty fmap[int], va fmap[*variants.Variant], vt fmap[variants.VariantType], vv fmap[any], n int)
+//@   tags C03
+//@   requires 0 <= n && n <= len(s) && len(s) <= len(t) && (forall j int :: 0 <= j && j < len(s) ==> t[j] == s[j])
+//@   ensures resOKn(t, ty, va, vt, vv, n) == resOKn(s, ty, va, vt, vv, n)
+//@   decreases n
+//@   induction s, t, ty, va, vt, vv, n - 1
+//@ lemma okAt(s seq[*ExpressionToken], ty fmap[int], va fmap[*variants.Variant], vt fmap[variants.VariantType], vv fmap[any], i int, m int)
+//@   tags C03
+//@   requires 0 <= i && i < m && resOKn(s, ty, va, vt, vv, m)
+//@   ensures rtokF(ty, va, vt, vv, s[i])
+//@   decreases m
+//@   induction s, ty, va, vt, vv, i, m - 1
+//@ spec resOK(c *ExpressionParser) bool = resOKn(seq(c.resultTokens), heapof(ExpressionToken, typ), heapof(ExpressionToken, value),
+//@     heapof(variants.Variant, typ), heapof(variants.Variant, value), len(c.resultTokens))
+//
 //@ func (c *ExpressionParser) hasMoreTokens
 //@   requires c != nil
 //@   ensures result == (c.currentTokenIndex < len(c.initialTokens))
@@ -112,9 +135,13 @@ package parsers
 //@       c.resultTokens[len(c.resultTokens) - 1].typ == typ && (value != nil ==> c.resultTokens[len(c.resultTokens) - 1].value == value)
 //@   ensures arr(c.resultTokens) == old(arr(c.resultTokens)) || fresh(c.resultTokens)
 //@   ensures[C03] resDepth(c) == (old(resDepth(c)) < 0 ? -1 : depthStep(old(resDepth(c)), typ, old(lastCount(c))))
+//@   ensures[C03] old(resOK(c)) && ((typ == Constant || typ == Variable || typ == Function) ==> vinv(value)) &&
+//@       ((typ == Variable || typ == Function) ==> value.typ == variants.String) ==> resOK(c)
 //@   assigns c.resultTokens, c.resultTokens[*]
 //@   nopanic
 //@   use depthPrefix(old(seq(c.resultTokens)), seq(c.resultTokens), heapof(ExpressionToken, typ), heapof(ExpressionToken, value),
+//@       heapof(variants.Variant, typ), heapof(variants.Variant, value), old(len(c.resultTokens))) at exit
+//@   use okPrefix(old(seq(c.resultTokens)), seq(c.resultTokens), heapof(ExpressionToken, typ), heapof(ExpressionToken, value),
 //@       heapof(variants.Variant, typ), heapof(variants.Variant, value), old(len(c.resultTokens))) at exit
 //
 // "a stray word in place of IS/NOT" is not accepted: every listed type must match, in order
@@ -235,8 +262,10 @@ package parsers
 //@ func (c *ExpressionParser) performSyntaxAnalysis
 //@   requires parserInv(c)
 //@   requires resDepth(c) >= 0
+//@   requires resOK(c)
 //@   ensures[C03] resDepth(c) >= 0 && (result == nil ==> resDepth(c) == old(resDepth(c)) + 1)
-//@   opaque rpnDepth
+//@   ensures[C03] resOK(c)
+//@   opaque rpnDepth, resOKn
 //@   ensures[C02] (result == nil) == (E0(toks(c), tys(), old(c.currentTokenIndex)) >= 0)
 //@   ensures[C02] result == nil ==> c.currentTokenIndex == E0(toks(c), tys(), old(c.currentTokenIndex))
 //@   ensures[C02,C03] idxInv(c) && sameTokens(c) && errHasCode(result)
@@ -249,14 +278,16 @@ package parsers
 //@   loop 0
 //@     invariant idxInv(c) && sameTokens(c) && c.currentTokenIndex > old(c.currentTokenIndex)
 //@     invariant E0(toks(c), tys(), old(c.currentTokenIndex)) == R0(toks(c), tys(), c.currentTokenIndex)
-//@     invariant resDepth(c) == old(resDepth(c)) + 1
+//@     invariant resDepth(c) == old(resDepth(c)) + 1 && resOK(c)
 //@     decreases len(c.initialTokens) - c.currentTokenIndex
 //
 //@ func (c *ExpressionParser) performSyntaxAnalysisAtLevel1
 //@   requires parserInv(c)
 //@   requires resDepth(c) >= 0
+//@   requires resOK(c)
 //@   ensures[C03] resDepth(c) >= 0 && (result == nil ==> resDepth(c) == old(resDepth(c)) + 1)
-//@   opaque rpnDepth
+//@   ensures[C03] resOK(c)
+//@   opaque rpnDepth, resOKn
 //@   ensures[C02] (result == nil) == (E1(toks(c), tys(), old(c.currentTokenIndex)) >= 0)
 //@   ensures[C02] result == nil ==> c.currentTokenIndex == E1(toks(c), tys(), old(c.currentTokenIndex))
 //@   ensures[C02,C03] idxInv(c) && sameTokens(c) && errHasCode(result)
@@ -270,8 +301,10 @@ package parsers
 //@ func (c *ExpressionParser) performSyntaxAnalysisAtLevel2
 //@   requires parserInv(c)
 //@   requires resDepth(c) >= 0
+//@   requires resOK(c)
 //@   ensures[C03] resDepth(c) >= 0 && (result == nil ==> resDepth(c) == old(resDepth(c)) + 1)
-//@   opaque rpnDepth
+//@   ensures[C03] resOK(c)
+//@   opaque rpnDepth, resOKn
 //@   ensures[C02] (result == nil) == (E2(toks(c), tys(), old(c.currentTokenIndex)) >= 0)
 //@   ensures[C02] result == nil ==> c.currentTokenIndex == E2(toks(c), tys(), old(c.currentTokenIndex))
 //@   ensures[C02,C03] idxInv(c) && sameTokens(c) && errHasCode(result)
@@ -284,14 +317,16 @@ package parsers
 //@   loop 0
 //@     invariant idxInv(c) && sameTokens(c) && c.currentTokenIndex > old(c.currentTokenIndex)
 //@     invariant E2(toks(c), tys(), old(c.currentTokenIndex)) == R2(toks(c), tys(), c.currentTokenIndex)
-//@     invariant resDepth(c) == old(resDepth(c)) + 1
+//@     invariant resDepth(c) == old(resDepth(c)) + 1 && resOK(c)
 //@     decreases len(c.initialTokens) - c.currentTokenIndex
 //
 //@ func (c *ExpressionParser) performSyntaxAnalysisAtLevel3
 //@   requires parserInv(c)
 //@   requires resDepth(c) >= 0
+//@   requires resOK(c)
 //@   ensures[C03] resDepth(c) >= 0 && (result == nil ==> resDepth(c) == old(resDepth(c)) + 1)
-//@   opaque rpnDepth
+//@   ensures[C03] resOK(c)
+//@   opaque rpnDepth, resOKn
 //@   ensures[C02] (result == nil) == (E3(toks(c), tys(), old(c.currentTokenIndex)) >= 0)
 //@   ensures[C02] result == nil ==> c.currentTokenIndex == E3(toks(c), tys(), old(c.currentTokenIndex))
 //@   ensures[C02,C03] idxInv(c) && sameTokens(c) && errHasCode(result)
@@ -304,14 +339,16 @@ package parsers
 //@   loop 0
 //@     invariant idxInv(c) && sameTokens(c) && c.currentTokenIndex > old(c.currentTokenIndex)
 //@     invariant E3(toks(c), tys(), old(c.currentTokenIndex)) == R3(toks(c), tys(), c.currentTokenIndex)
-//@     invariant resDepth(c) == old(resDepth(c)) + 1
+//@     invariant resDepth(c) == old(resDepth(c)) + 1 && resOK(c)
 //@     decreases len(c.initialTokens) - c.currentTokenIndex
 //
 //@ func (c *ExpressionParser) performSyntaxAnalysisAtLevel4
 //@   requires parserInv(c)
 //@   requires resDepth(c) >= 0
+//@   requires resOK(c)
 //@   ensures[C03] resDepth(c) >= 0 && (result == nil ==> resDepth(c) == old(resDepth(c)) + 1)
-//@   opaque rpnDepth
+//@   ensures[C03] resOK(c)
+//@   opaque rpnDepth, resOKn
 //@   ensures[C02] (result == nil) == (E4(toks(c), tys(), old(c.currentTokenIndex)) >= 0)
 //@   ensures[C02] result == nil ==> c.currentTokenIndex == E4(toks(c), tys(), old(c.currentTokenIndex))
 //@   ensures[C02,C03] idxInv(c) && sameTokens(c) && errHasCode(result)
@@ -324,14 +361,16 @@ package parsers
 //@   loop 0
 //@     invariant idxInv(c) && sameTokens(c) && c.currentTokenIndex > old(c.currentTokenIndex)
 //@     invariant E4(toks(c), tys(), old(c.currentTokenIndex)) == R4(toks(c), tys(), c.currentTokenIndex)
-//@     invariant resDepth(c) == old(resDepth(c)) + 1
+//@     invariant resDepth(c) == old(resDepth(c)) + 1 && resOK(c)
 //@     decreases len(c.initialTokens) - c.currentTokenIndex
 //
 //@ func (c *ExpressionParser) performSyntaxAnalysisAtLevel5
 //@   requires parserInv(c)
 //@   requires resDepth(c) >= 0
+//@   requires resOK(c)
 //@   ensures[C03] resDepth(c) >= 0 && (result == nil ==> resDepth(c) == old(resDepth(c)) + 1)
-//@   opaque rpnDepth
+//@   ensures[C03] resOK(c)
+//@   opaque rpnDepth, resOKn
 //@   ensures[C02] (result == nil) == (E5(toks(c), tys(), old(c.currentTokenIndex)) >= 0)
 //@   ensures[C02] result == nil ==> c.currentTokenIndex == E5(toks(c), tys(), old(c.currentTokenIndex))
 //@   ensures[C02,C03] idxInv(c) && sameTokens(c) && errHasCode(result)
@@ -344,14 +383,16 @@ package parsers
 //@   loop 0
 //@     invariant idxInv(c) && sameTokens(c) && c.currentTokenIndex > old(c.currentTokenIndex)
 //@     invariant E5(toks(c), tys(), old(c.currentTokenIndex)) == R5(toks(c), tys(), c.currentTokenIndex)
-//@     invariant resDepth(c) == old(resDepth(c)) + 1
+//@     invariant resDepth(c) == old(resDepth(c)) + 1 && resOK(c)
 //@     decreases len(c.initialTokens) - c.currentTokenIndex
 //
 //@ func (c *ExpressionParser) performSyntaxAnalysisAtLevel6
 //@   requires parserInv(c)
 //@   requires resDepth(c) >= 0
+//@   requires resOK(c)
 //@   ensures[C03] resDepth(c) >= 0 && (result == nil ==> resDepth(c) == old(resDepth(c)) + 1)
-//@   opaque rpnDepth
+//@   ensures[C03] resOK(c)
+//@   opaque rpnDepth, resOKn
 //@   ensures[C02,slow] (result == nil) == (E6(toks(c), tys(), old(c.currentTokenIndex)) >= 0)
 //@   ensures[C02,slow] result == nil ==> c.currentTokenIndex == E6(toks(c), tys(), old(c.currentTokenIndex))
 //@   ensures[C02,C03] idxInv(c) && sameTokens(c) && errHasCode(result)
@@ -367,13 +408,60 @@ package parsers
 //@   callsite[C02] addTokenToResult requires typ != Element || (c.currentTokenIndex >= 1 && c.initialTokens[c.currentTokenIndex - 1].typ == RightSquareBrace)
 //@   loop 0
 //@     invariant -1 <= rangeindex && rangeindex < len(c.variableNames) && idxInv(c) && sameTokens(c) && c.currentTokenIndex > old(c.currentTokenIndex)
-//@     invariant resDepth(c) == old(resDepth(c))
+//@     invariant resDepth(c) == old(resDepth(c)) && resOK(c)
 //@     decreases len(c.variableNames) - rangeindex
 //@   loop 1
 //@     invariant idxInv(c) && sameTokens(c) && c.currentTokenIndex > old(c.currentTokenIndex) && paramCount >= 0 && paramCount <= c.currentTokenIndex
 //@     invariant c.currentTokenIndex < len(c.initialTokens)
-//@     invariant resDepth(c) == old(resDepth(c)) + paramCount
+//@     invariant resDepth(c) == old(resDepth(c)) + paramCount && resOK(c)
 //@     invariant PRIM(toks(c), tys(), afterSign(toks(c), tys(), old(c.currentTokenIndex))) == ARGS(toks(c), tys(), c.currentTokenIndex + 1, paramCount > 0 ? 1 : 0)
 //@     invariant afterSign(toks(c), tys(), old(c.currentTokenIndex)) < len(c.initialTokens) && tk(toks(c), tys(), afterSign(toks(c), tys(), old(c.currentTokenIndex))) == Variable && tk(toks(c), tys(), afterSign(toks(c), tys(), old(c.currentTokenIndex)) + 1) == LeftBrace
 //@     decreases len(c.initialTokens) - c.currentTokenIndex
-//
+////
+// ---- the parse entry points: the parser's invariant on its output (C03) ---------------------------------------------
+// What the calculator relies on when it evaluates: every compiled token is well formed and the program never underflows.
+//@ pred pOK(c *ExpressionParser) = c != nil && resOK(c) && resDepth(c) >= 0
+//@ func (c *ExpressionParser) Clear
+//@   requires c != nil
+//@   ensures[C03] len(c.originalTokens) == 0 && len(c.initialTokens) == 0 && len(c.resultTokens) == 0 && len(c.variableNames) == 0 && c.currentTokenIndex == 0
+//@   ensures[C03] fresh(c.initialTokens) && fresh(c.resultTokens) && arr(c.resultTokens) != arr(c.initialTokens) && pOK(c)
+//@   assigns c.expression, c.originalTokens, c.initialTokens, c.resultTokens, c.currentTokenIndex, c.variableNames
+//@   nopanic
+// A14 (trusted, not verified): the lexical analysis turns tokenizer tokens into classified tokens that satisfy
+// tokOK (a valid value; variables carry their name as a string; no Function or Unary type yet) or fails with an error.
+// It is covered by the bounded reference check of C02, which compares whole compilations with a reference.
+//@ func (c *ExpressionParser) completeLexicalAnalysis
+//@   requires c != nil
+//@   ensures[C02] result == nil ==> (forall i int :: 0 <= i && i < len(c.initialTokens) ==> tokOK(c.initialTokens[i]))
+//@   ensures[C02] arr(c.initialTokens) == old(arr(c.initialTokens)) || fresh(c.initialTokens)
+//@   assigns c.initialTokens, c.initialTokens[*]
+//@   nopanic
+//@   trusted
+//@ func (c *ExpressionParser) performParsing
+//@   requires pOK(c) && c.currentTokenIndex == 0 && len(c.resultTokens) == 0 && len(c.initialTokens) == 0 &&
+//@       arr(c.resultTokens) != arr(c.initialTokens)
+//@   ensures[C03] pOK(c)
+//@   assigns c.currentTokenIndex, c.initialTokens, c.initialTokens[*], c.resultTokens, c.resultTokens[*], c.variableNames, c.variableNames[*]
+//@   nopanic
+//@ func (c *ExpressionParser) tokenizeExpression
+//@   requires c != nil && c.tokenizer != nil
+//@   ensures[C03] fresh(result) && (forall i int :: 0 <= i && i < len(result) ==> result[i] != nil && allocated(result[i]))
+//@   assigns any(tokenizers.AbstractTokenizer).Scanner, any(tokenizers.AbstractTokenizer).NextTokenValue, any(tokenizers.AbstractTokenizer).LastTokenType,
+//@       any(tokenizers.AbstractTokenizer).skipWhitespaces, any(tokenizers.AbstractTokenizer).skipComments, any(tokenizers.AbstractTokenizer).skipEof,
+//@       any(tokenizers.AbstractTokenizer).decodeStrings
+//@   nopanic
+// "setting ... an expression ... terminate[s] and return[s] normally"; afterwards the compiled program is well formed
+// whether or not an error is reported
+//@ func (c *ExpressionParser) ParseString
+//@   tags C03
+//@   requires c != nil && c.tokenizer != nil
+//@   ensures[C03] pOK(c)
+//@   nopanic
+//@ func (c *ExpressionParser) SetExpression
+//@   tags C03
+//@   requires c != nil && c.tokenizer != nil
+//@   ensures[C03] pOK(c)
+//@   nopanic
+//@ func NewExpressionParser
+//@   ensures[C03] fresh(result) && result.tokenizer != nil && pOK(result)
+//@   nopanic
